@@ -142,6 +142,14 @@ func (r *rewriter) rewriteFile() {
 			r.genChanType[t] = n.Value
 			c.Replace(t)
 		case *ast.SelectorExpr:
+			if r.isPkg(n.X, "context") {
+				switch n.Sel.Name {
+				case "WithCancel", "WithTimeout", "WithDeadline":
+					c.Replace(r.vs("Ctx" + n.Sel.Name))
+				case "WithCancelCause", "WithTimeoutCause", "WithDeadlineCause", "AfterFunc", "WithoutCancel":
+					die("context.%s at %s", n.Sel.Name, r.pos(n))
+				}
+			}
 			if r.isPkg(n.X, "time") {
 				if _, ok := timeFuncs[n.Sel.Name]; ok {
 					c.Replace(r.vs(n.Sel.Name))
@@ -615,6 +623,8 @@ func main() {
 				switch pth {
 				case "time":
 					fmt.Fprintf(&buf, "\nvar _ = %s.Second\n", name)
+				case "context":
+					fmt.Fprintf(&buf, "\nvar _ = %s.Background\n", name)
 				case vsPath:
 					if name == "sync" {
 						fmt.Fprintf(&buf, "\nvar _ %s.Mutex\n", name)
